@@ -509,13 +509,11 @@ pub fn check_reverse(store: &AnnotationStore) -> Vec<RevFail> {
         let want = by_ann.get(&a.handle).unwrap_or(&empty);
         cmp_list(&mut out, "Annotation::annotations", &name, catch(|| handles(ann.annotations())), want);
         cmp_list(&mut out, "Annotation::annotations_handles", &name, catch(|| handles(ann.annotations_handles().items())), want);
-        // annotations_in_targets(One): the annotations this one targets, duplicate-free
+        // annotations_in_targets(One): the annotations this one targets, exactly as it was built (a target named twice is there twice)
         let mut want_targets: Vec<usize> = Vec::new();
         for p in &a.parts {
             if let HRef::Ann { ann, .. } = p {
-                if !want_targets.contains(ann) {
-                    want_targets.push(*ann);
-                }
+                want_targets.push(*ann);
             }
         }
         // order: "textual order" unless directional (then exactly as selected); the textual order of
